@@ -552,7 +552,24 @@ class Interp:
         if isinstance(e, ast.Subscript):
             if isinstance(e.slice, ast.Slice):
                 parts = [e.value] + [x for x in (e.slice.lower, e.slice.upper, e.slice.step) if x is not None]
-                return [((items if isinstance(items, Exc) else Unknown("slice")), s) for items, s in self.seq(parts, st)]
+                res = []
+                for items, s in self.seq(parts, st):
+                    if isinstance(items, Exc):
+                        res.append((items, s))
+                        continue
+                    if all(isinstance(i, Const) for i in items):
+                        it = iter(items[1:])
+                        lo = next(it).v if e.slice.lower is not None else None
+                        hi = next(it).v if e.slice.upper is not None else None
+                        stp = next(it).v if e.slice.step is not None else None
+                        try:
+                            res.append((Const(items[0].v[lo:hi:stp]), s))
+                            continue
+                        except Exception as ex:
+                            res.append((Exc(type(ex).__name__, e), s))
+                            continue
+                    res.append((Unknown("slice"), s))
+                return res
             res = []
             for items, s in self.seq([e.value, e.slice], st):
                 if isinstance(items, Exc):
@@ -598,6 +615,44 @@ class Interp:
                         pass
                 res.append((Unknown("fstr"), s))
             return res
+        if isinstance(e, (ast.ListComp, ast.GeneratorExp)) and len(e.generators) == 1 and not e.generators[0].is_async \
+                and isinstance(e.generators[0].target, ast.Name):
+            # over a known sequence: one value per item, on a single path (anything that branches or is unknown makes the result unknown)
+            g = e.generators[0]
+            its = self.eval(g.iter, st)
+            if len(its) == 1 and isinstance(its[0][0], Const) and isinstance(its[0][0].v, (list, tuple)) and len(its[0][0].v) <= 16:
+                out, s = [], its[0][1]
+                ok = True
+                saved = s.env.get(g.target.id, None)
+                had = g.target.id in s.env
+                for item in its[0][0].v:
+                    s.env[g.target.id] = Const(item)
+                    keep = True
+                    for c in g.ifs:
+                        r = self.eval(c, s)
+                        t = truth(r[0][0]) if len(r) == 1 and not isinstance(r[0][0], Exc) else None
+                        if t is None:
+                            ok = False
+                            break
+                        if not t:
+                            keep = False
+                            break
+                    if not ok:
+                        break
+                    if not keep:
+                        continue
+                    r = self.eval(e.elt, s)
+                    if len(r) != 1 or not isinstance(r[0][0], Const):
+                        ok = False
+                        break
+                    out.append(r[0][0].v)
+                if had:
+                    s.env[g.target.id] = saved
+                else:
+                    s.env.pop(g.target.id, None)
+                if ok:
+                    return [(Const(out), s)]
+            return [(Unknown("comprehension"), st)]
         return [(Unknown(type(e).__name__), st)]
 
     def call(self, e, st):
@@ -657,14 +712,19 @@ class Interp:
                 return [(Const(isinstance(args[0].v, args[1].v)), st)]
             if f.id == "type" and len(args) == 1 and isinstance(args[0], Const):
                 return [(Const(type(args[0].v)), st)]
+            if f.id == "enumerate" and 1 <= len(args) <= 2 and isinstance(args[0], Const) and isinstance(args[0].v, (list, tuple)) \
+                    and all(isinstance(a, Const) for a in args) and not kw:
+                start = args[1].v if len(args) == 2 else 0
+                return [(Const([(start + i, x) for i, x in enumerate(args[0].v)]), st)]
             if f.id == "len" and args and isinstance(args[0], Const):
                 try:
                     return [(Const(len(args[0].v)), st)]
                 except Exception:
                     return [(Exc("TypeError", e), st)]
-            if f.id in ("int", "str", "bool", "bytes") and len(args) == 1 and isinstance(args[0], Const) and not kw:
+            if f.id in ("int", "str", "bool", "bytes", "list", "tuple", "sorted") and len(args) == 1 and isinstance(args[0], Const) and not kw:
                 try:
-                    return [(Const({"int": int, "str": str, "bool": bool, "bytes": bytes}[f.id](args[0].v)), st)]
+                    return [(Const({"int": int, "str": str, "bool": bool, "bytes": bytes, "list": list, "tuple": tuple,
+                                    "sorted": sorted}[f.id](args[0].v)), st)]
                 except Exception as ex:
                     return [(Exc(type(ex).__name__, e), st)]
         if isinstance(f, ast.Attribute) and isinstance(recv, Const) and isinstance(recv.v, list) and f.attr in ("append", "extend") \
